@@ -10,7 +10,8 @@
      "wrongpred"    a TRC with the right ID, signed by certificates the predecessor does not know
      "wrongserial"  a genuine TRC of the chain with serial s+1      "stale": with serial s-1
      "otherbase"    a TRC of another base number                     "otherisd": of another ISD
-     "inserterr"    a verifiable successor, but the database insert fails                      *)
+     "inserterr"    a verifiable successor, but the database insert fails
+   (outc[1] = "dbreaderr" stands for a call during which the database cannot be read at all)     *)
 EXTENDS Integers, Sequences, FiniteSets
 
 GoodOutcomes == {"ok", "okb"}
@@ -33,7 +34,8 @@ FirstFailure(latest, target, outc) ==
 
 NotifyResult(db, storeBase, idBase, idSerial, outc) ==
     LET latest == Latest(db) IN
-    IF latest = 0 THEN [db |-> db, fetched |-> <<>>, err |-> "notfound"]
+    IF outc[1] = "dbreaderr" THEN [db |-> db, fetched |-> <<>>, err |-> "db"]    \* the store cannot be read
+    ELSE IF latest = 0 THEN [db |-> db, fetched |-> <<>>, err |-> "notfound"]
     ELSE IF idBase # storeBase THEN [db |-> db, fetched |-> <<>>, err |-> "base"]
     ELSE IF idSerial <= latest THEN [db |-> db, fetched |-> <<>>, err |-> ""]
     ELSE LET f == FirstFailure(latest, idSerial, outc)
@@ -42,14 +44,18 @@ NotifyResult(db, storeBase, idBase, idSerial, outc) ==
           fetched |-> [i \in 1..(last - latest) |-> latest + i],
           err |-> IF f > idSerial THEN "" ELSE ErrClass(outc[f])]
 
-(* LoadTRCs(dir): files are [serial, content, future]; TRCs whose validity starts in the future are
-   ignored; the others are inserted in order (an insert that conflicts with a stored TRC of the same
-   ID stops the load).                                                                          *)
+(* LoadTRCs(dir): files (in file-name order) are [serial, content, future, isd, junk]:
+     junk    the file does not parse as a TRC: the load stops with an error at that file
+     isd     1: the ISD of this store; 2: a (genuine) TRC of another ISD -- stored under its own ISD
+     future  validity starts in the future: ignored
+   the others are inserted in order (an insert that conflicts with a stored TRC of the same ID stops
+   the load).  No verification takes place: files on disk are trusted.                          *)
 RECURSIVE LoadFrom(_, _, _)
 LoadFrom(db, files, i) ==
     IF i > Len(files) THEN [db |-> db, err |-> ""]
     ELSE LET f == files[i] IN
-         IF f.future THEN LoadFrom(db, files, i + 1)
+         IF f.junk THEN [db |-> db, err |-> "parse"]
+         ELSE IF f.future \/ f.isd # 1 THEN LoadFrom(db, files, i + 1)
          ELSE IF db[f.serial] = "none" THEN LoadFrom([db EXCEPT ![f.serial] = f.content], files, i + 1)
          ELSE IF db[f.serial] = f.content THEN LoadFrom(db, files, i + 1)
          ELSE [db |-> db, err |-> "insert"]
